@@ -254,7 +254,7 @@ func scenarioRead(op string) func(c *harness.Ctx) {
 			if pan2 == nil && o2.err == nil {
 				pWithDataAtEnd.Hit()
 			}
-			if (pan2 != nil || o2.err != nil || !reflect.DeepEqual(o2.val, base.val) || o2.n != base.n) {
+			if pan2 != nil || o2.err != nil || !reflect.DeepEqual(o2.val, base.val) || o2.n != base.n {
 				c.Fail("fragmentation", op, "last-bytes-with-eof", "%s: the complete document delivered with io.EOF accompanying its last bytes gives err=%v panic=%v n=%d (contiguous: nil, n=%d)", rc.desc, o2.err, pan2, o2.n, base.n)
 				return
 			}
